@@ -228,49 +228,217 @@ func (c *c13) callersClose(f *ssa.Function, search *ssa.Call, open [][]ir.NLit, 
 	if len(sites) == 0 {
 		return false
 	}
-	patTest := func(l ir.NLit) (name, pat string, subj ssa.Value, ok bool) {
-		if l.Kind != "val" {
-			return "", "", nil, false
+	// a constant-pattern test on a string, in any of its spellings: HasPrefix /
+	// HasSuffix / Contains, or a search result compared with -1 / 0
+	// (`strings.IndexByte(s, ' ') < 0` is !Contains(s, " ")); pol is the test's outcome
+	patTest := func(l ir.NLit) (name, pat string, subj ssa.Value, pol, ok bool) {
+		switch l.Kind {
+		case "val":
+			tc, isC := ir.Resolve(l.V).(*ssa.Call)
+			if !isC || !ir.IsCallTo(&tc.Call, "strings.HasPrefix", "strings.HasSuffix", "strings.Contains") {
+				return "", "", nil, false, false
+			}
+			p, okP := ir.ConstString(tc.Call.Args[1])
+			if !okP {
+				return "", "", nil, false, false
+			}
+			return ir.CalleeName(&tc.Call), p, ir.Deep(tc.Call.Args[0]), l.Pol, true
+		case "cmp":
+			for _, sw := range [2]bool{false, true} {
+				x, y, op := l.X, l.Y, l.Op
+				if sw {
+					x, y, op = l.Y, l.X, swapOp(l.Op)
+				}
+				tc, isC := ir.Resolve(x).(*ssa.Call)
+				if !isC || !ir.IsCallTo(&tc.Call, "strings.Index", "strings.IndexByte", "strings.IndexRune", "strings.LastIndex", "strings.LastIndexByte") {
+					continue
+				}
+				k, isK := ir.ConstInt(y)
+				if !isK {
+					continue
+				}
+				p, okP := ir.ConstString(tc.Call.Args[1])
+				if !okP {
+					if ch, isCh := ir.ConstInt(tc.Call.Args[1]); isCh && ch > 0 && ch < 128 {
+						p, okP = string(rune(ch)), true
+					}
+				}
+				if !okP {
+					continue
+				}
+				found, decided := false, true
+				switch {
+				case op == token.LSS && k == 0, op == token.LEQ && k == -1, op == token.EQL && k == -1:
+					found = false
+				case op == token.GEQ && k == 0, op == token.GTR && k == -1, op == token.NEQ && k == -1:
+					found = true
+				default:
+					decided = false
+				}
+				if decided {
+					return "strings.Contains", p, ir.Deep(tc.Call.Args[0]), found, true
+				}
+			}
 		}
-		tc, isC := ir.Resolve(l.V).(*ssa.Call)
-		if !isC || !ir.IsCallTo(&tc.Call, "strings.HasPrefix", "strings.HasSuffix", "strings.Contains") {
-			return "", "", nil, false
+		return "", "", nil, false, false
+	}
+	// `!hasPrefixOfSet(s)`: a negative answer of slices.ContainsFunc over a constant
+	// string list with strings.HasPrefix/HasSuffix/Contains(s, element) as predicate
+	// (directly, or as the single result of a package predicate) is one negative test
+	// per element
+	type ptest struct {
+		name, pat string
+		subj      ssa.Value
+		pol       bool
+	}
+	setTests := func(l ir.NLit) []ptest {
+		if l.Kind != "val" || l.Pol {
+			return nil
 		}
-		p, okP := ir.ConstString(tc.Call.Args[1])
-		if !okP {
-			return "", "", nil, false
+		call, isC := ir.Resolve(l.V).(*ssa.Call)
+		if !isC {
+			return nil
 		}
-		return ir.CalleeName(&tc.Call), p, ir.Resolve(tc.Call.Args[0]), true
+		argOf := map[ssa.Value]ssa.Value{}
+		for d := 0; d < 3 && !strings.HasPrefix(ir.CalleeName(&call.Call), "slices.ContainsFunc"); d++ {
+			h := call.Call.StaticCallee()
+			if h == nil || !e.P.Funcs[h] || len(h.Blocks) != 1 {
+				return nil
+			}
+			rt, isR := h.Blocks[0].Instrs[len(h.Blocks[0].Instrs)-1].(*ssa.Return)
+			if !isR || len(rt.Results) != 1 {
+				return nil
+			}
+			inner, isI := ir.Resolve(rt.Results[0]).(*ssa.Call)
+			if !isI {
+				return nil
+			}
+			for i, p := range h.Params {
+				if i < len(call.Call.Args) {
+					a := ir.Resolve(call.Call.Args[i])
+					if prev, ok := argOf[a]; ok {
+						a = prev
+					}
+					argOf[p] = a
+				}
+			}
+			call = inner
+		}
+		if !strings.HasPrefix(ir.CalleeName(&call.Call), "slices.ContainsFunc") || len(call.Call.Args) != 2 {
+			return nil
+		}
+		u, isU := ir.Resolve(call.Call.Args[0]).(*ssa.UnOp)
+		if !isU {
+			return nil
+		}
+		g, isG := u.X.(*ssa.Global)
+		if !isG {
+			return nil
+		}
+		elems, okE := e.constStringSlice(g)
+		if !okE {
+			return nil
+		}
+		mc, isMC := ir.Resolve(call.Call.Args[1]).(*ssa.MakeClosure)
+		if !isMC {
+			return nil
+		}
+		cl := mc.Fn.(*ssa.Function)
+		if len(cl.Blocks) != 1 || len(cl.Params) != 1 {
+			return nil
+		}
+		rt, isR := cl.Blocks[0].Instrs[len(cl.Blocks[0].Instrs)-1].(*ssa.Return)
+		if !isR || len(rt.Results) != 1 {
+			return nil
+		}
+		tc, isT := ir.Resolve(rt.Results[0]).(*ssa.Call)
+		if !isT || !ir.IsCallTo(&tc.Call, "strings.HasPrefix", "strings.HasSuffix", "strings.Contains") || ir.Resolve(tc.Call.Args[1]) != ssa.Value(cl.Params[0]) {
+			return nil
+		}
+		// the string tested: a free variable of the closure, bound to a value of the predicate
+		subj := ir.Resolve(tc.Call.Args[0])
+		if fv, isFV := subj.(*ssa.FreeVar); isFV {
+			for i, f := range cl.FreeVars {
+				if f == fv && i < len(mc.Bindings) {
+					subj = ir.Resolve(mc.Bindings[i])
+				}
+			}
+		}
+		if u2, isU2 := subj.(*ssa.UnOp); isU2 && u2.Op == token.MUL {
+			// captured by reference: the cell holds the parameter
+			if al, isAl := u2.X.(*ssa.Alloc); isAl {
+				for _, ref := range *al.Referrers() {
+					if st, isSt := ref.(*ssa.Store); isSt && st.Addr == ssa.Value(al) {
+						subj = ir.Resolve(st.Val)
+					}
+				}
+			}
+			if fv, isFV := u2.X.(*ssa.FreeVar); isFV {
+				for i, f := range cl.FreeVars {
+					if f == fv && i < len(mc.Bindings) {
+						if al, isAl := mc.Bindings[i].(*ssa.Alloc); isAl {
+							for _, ref := range *al.Referrers() {
+								if st, isSt := ref.(*ssa.Store); isSt && st.Addr == ssa.Value(al) {
+									subj = ir.Resolve(st.Val)
+								}
+							}
+						}
+					}
+				}
+			}
+		}
+		if a, ok := argOf[subj]; ok {
+			subj = a
+		}
+		var out []ptest
+		for _, el := range elems {
+			out = append(out, ptest{ir.CalleeName(&tc.Call), el, ir.Deep(subj), false})
+		}
+		return out
 	}
 	sub, _ := ir.ConstString(search.Call.Args[1])
 	for _, cs := range sites {
 		if pi >= len(cs.Common().Args) {
 			return false
 		}
-		arg := ir.Resolve(cs.Common().Args[pi])
-		for _, cw := range e.waysTo(cs) {
-			for _, lw := range open {
-				closed := false
-				for _, cl := range cw {
-					cn, cp, csub, okc := patTest(cl)
-					if !okc || csub != arg {
-						continue
+		arg := ir.Deep(cs.Common().Args[pi])
+		for _, cw0 := range e.waysTo(cs) {
+			allClosed := true
+			// the caller's conditions with its predicates opened (`hasZonePrefix(spec)`)
+			e.ways(cw0, func(cw []ir.NLit) {
+				for _, lw := range open {
+					closed := false
+					var facts []ptest
+					for _, cl := range cw {
+						if cn, cp, csub, cpol, okc := patTest(cl); okc {
+							facts = append(facts, ptest{cn, cp, csub, cpol})
+						}
+						facts = append(facts, setTests(cl)...)
 					}
-					// the caller knows the argument contains the pattern searched for
-					if cl.Pol && sub != "" && strings.Contains(cp, sub) {
-						closed = true
-					}
-					// or it took the other outcome of a test the library's way depends on
-					for _, ll := range lw {
-						ln, lp, lsub, okl := patTest(ll)
-						if okl && ln == cn && lp == cp && lsub == ssa.Value(f.Params[pi]) && ll.Pol != cl.Pol {
+					for _, ft := range facts {
+						cn, cp, csub, cpol := ft.name, ft.pat, ft.subj, ft.pol
+						if csub != arg && ir.Deep(csub) != arg {
+							continue
+						}
+						// the caller knows the argument contains the pattern searched for
+						if cpol && sub != "" && strings.Contains(cp, sub) {
 							closed = true
 						}
+						// or it took the other outcome of a test the library's way depends on
+						for _, ll := range lw {
+							ln, lp, lsub, lpol, okl := patTest(ll)
+							if okl && ln == cn && lp == cp && ir.Resolve(lsub) == ssa.Value(f.Params[pi]) && lpol != cpol {
+								closed = true
+							}
+						}
+					}
+					if !closed {
+						allClosed = false
 					}
 				}
-				if !closed {
-					return false
-				}
+			})
+			if !allClosed {
+				return false
 			}
 		}
 	}
